@@ -94,7 +94,8 @@ def cases(tier, seed):
             for i, (x, y) in enumerate(pairs):
                 add(cfg, x, y, routes[i % 3])
     # d = 7, 8 : lazily filled sign table
-    for d, cfgs in ((7, [dict(p=4, q=2, r=1), dict(p=7)]), (8, [dict(p=5, q=2, r=1)])):
+    for d, cfgs in ((7, [dict(p=4, q=2, r=1), dict(p=7), dict(p=4, q=1, r=2), dict(signature=[1, -1, 1, 0, 1, 1, -1]), dict(signature=[0, 1, 1, -1, 1, 0, 1], start_index=1)]),
+                    (8, [dict(p=5, q=2, r=1), dict(signature=[1, 1, 1, 0, 1, 1, 1, -1])])):
         if d == 8 and tier == 'quick':
             cfgs = cfgs[:1]
         n = 15 if tier == 'quick' else 100
@@ -102,6 +103,11 @@ def cases(tier, seed):
             R = pat.RND(d, 2 * n, rng, max_len=8, order=list(range(2 ** d)))
             for i in range(n):
                 add(cfg, R[2 * i], R[2 * i + 1], routes[i % 3])
+    for cfg in (dict(p=2, start_index=10), dict(p=2, r=1, start_index=11), dict(p=4, start_index=12)):
+        dd = sum(v for k, v in cfg.items() if k in 'pqr')
+        P = pat.EXH(2) if dd == 2 else pat.RND(dd, 60, rng, max_len=5)
+        for i in range(80 if tier == 'quick' else 400):
+            add(cfg, rng.choice(P), rng.choice(P), routes[i % 3])
     # option variants on slices (argument unpacking is generated by different code on each route)
     for opt in (dict(cse=False), dict(graded=True), dict(wrapper='identity'), dict(cse=False, wrapper='wraps')):
         for d in (2, 3):
